@@ -16,7 +16,7 @@ NOT_INPUT_DEFECT = {"CIF_INVALID_HANDLE"}
 # (caller, callee, code) -> why that code cannot come back from this call site.  Frozen after reading each site.
 CANNOT_OCCUR = {
     ("parse_cif", "cif_get_block", "*"): "recovery lookup of the block that was just reported as duplicate",
-    ("parse_container", "cif_container_get_frame", "*"): "recovery lookup of the frame just reported as duplicate",
+    ("parse_container", "cif_container_get_frame", "CIF_NOSUCH_FRAME"): "recovery lookup of the frame just reported as duplicate: it exists",
     ("parse_cif", "cif_create_block_internal", "CIF_INVALID_BLOCKCODE"): "lenient = 1 suppresses validation",
     ("parse_container", "cif_container_create_frame_internal", "CIF_INVALID_FRAMECODE"): "lenient = 1 suppresses validation",
     ("parse_container", "cif_container_get_item_loop", "CIF_INVALID_ITEMNAME"): "the scanner only yields NAME tokens that start with '_' and contain no whitespace; "
@@ -326,6 +326,12 @@ def run(prog, chk):
     from .. import eofsentinel
     if eofsentinel.rule(prog, r5) < 15:
         raise Broken("fewer than 15 int functions analysed in parser.c")
+
+    r6 = chk.rule("R6-signed-index-lower-bound", "an index variable of signed type into a fixed-size table (character classes, "
+                  "keyword tables) is non-negative by construction or tested for it: option bytes and characters above 0x7F do "
+                  "not become negative indexes", primary=False, floor=5)
+    if memrules.signed_index_lower_bound(prog, r6) < 5:
+        raise Broken("fewer than 5 signed-index accesses to fixed-size arrays found")
 
     r4 = chk.rule("R4-termination-and-read-bounds", "no loop of the parser units is idempotent (call-free, without loop-carried state: "
                   "such a loop cannot make progress once entered); no pointer into the read buffer is dereferenced under `<=` "
